@@ -310,6 +310,110 @@ def run(ctx):
                            construct='%s: return self' % dn_)
     ctx.holds('M12', m, None, 'no path returns the database itself after consuming options', construct='return-self scan',
               trivial=True)
+    # ---- M16: a derived database carries the parent's unknown-specs on every path
+    ctx.rule('M16', 'filtered_context() / extended_with(): each of unknown_macro_spec, unknown_environment_spec and '
+                    'unknown_specials_spec of the new database is assigned on EVERY path from a value that mentions the '
+                    'parent\'s (self.<field>) -- not only under a condition on what is kept / added: a derived database '
+                    'answers an undefined name with the configured unknown-spec', 6)
+    _UNK = ('unknown_macro_spec', 'unknown_environment_spec', 'unknown_specials_spec')
+
+    def _assigns(block, attr, helpers_seen=()):
+        for st_ in block:
+            if isinstance(st_, ast.Assign):
+                for t_ in st_.targets:
+                    tl_ = t_.elts if isinstance(t_, (ast.Tuple, ast.List)) else [t_]
+                    vl_ = st_.value.elts if isinstance(t_, (ast.Tuple, ast.List)) and isinstance(
+                        st_.value, (ast.Tuple, ast.List)) and len(st_.value.elts) == len(tl_) else [st_.value] * len(tl_)
+                    for tt_, vv_ in zip(tl_, vl_):
+                        if isinstance(tt_, ast.Attribute) and tt_.attr == attr and not is_self_attr(tt_) and \
+                                ('self.' + attr) in unparse(vv_):
+                            return st_
+            elif isinstance(st_, ast.If):
+                a_, b_ = _assigns(st_.body, attr, helpers_seen), _assigns(st_.orelse, attr, helpers_seen)
+                if a_ is not None and b_ is not None:
+                    return a_
+            elif isinstance(st_, (ast.With, ast.Try)):
+                a_ = _assigns(st_.body, attr, helpers_seen)
+                if a_ is not None:
+                    return a_
+            elif isinstance(st_, ast.For) and isinstance(st_.iter, (ast.Tuple, ast.List)) and \
+                    attr in [getattr(e_, 'value', None) for e_ in st_.iter.elts] and isinstance(st_.target, ast.Name):
+                for c_ in ast.walk(st_):
+                    if isinstance(c_, ast.Call) and call_name(c_) == 'setattr' and len(c_.args) == 3 and \
+                            unparse(c_.args[1]) == st_.target.id and 'getattr(self, %s' % st_.target.id in unparse(c_.args[2]) \
+                            and all(p_ is st_ or not isinstance(p_, (ast.If, ast.While, ast.Try))
+                                    for p_ in _ancestors_upto(c_, st_)):
+                        return st_
+            elif isinstance(st_, ast.Expr) and isinstance(st_.value, ast.Call) and is_self_attr(st_.value.func) and \
+                    st_.value.func.attr in meths and st_.value.func.attr not in helpers_seen and \
+                    st_.value.func.attr not in ('filtered_context', 'extended_with'):
+                # a helper of the class that fills the fields of the new database it is handed
+                a_ = _assigns(meths[st_.value.func.attr].body, attr, helpers_seen + (st_.value.func.attr,))
+                if a_ is not None:
+                    return st_
+        return None
+
+    def _ancestors_upto(n_, top_):
+        out_ = []
+        for p_ in parents(n_):
+            out_.append(p_)
+            if p_ is top_:
+                break
+        return out_
+
+    for dn_ in ('filtered_context', 'extended_with'):
+        df_ = meths.get(dn_)
+        if df_ is None:
+            raise AnalysisError('anchor vanished: LatexContextDb.%s' % dn_)
+        for attr_ in _UNK:
+            a_ = _assigns(df_.body, attr_)
+            cond_ = [x_ for x_ in ast.walk(df_) if isinstance(x_, ast.Assign) and any(
+                isinstance(t_, ast.Attribute) and t_.attr == attr_ and not is_self_attr(t_) for t_ in x_.targets)]
+            ctx.decide('M16', a_ is not None, m, a_ if a_ is not None else (cond_[0] if cond_ else df_),
+                       '%s: %s of the new database assigned on every path from the parent\'s' % (dn_, attr_),
+                       '%s assigns %s of the new database %s: on the other paths the derived database has no %s, so '
+                       'an undefined name is answered with None (or an error) although a fallback specification was configured '
+                       'on the parent' % (dn_, attr_, ('only under a condition (%s)' % short(cond_[0], 50)) if cond_ else
+                                          'nowhere from self.%s' % attr_, attr_),
+                       construct='%s: %s' % (dn_, attr_))
+
+    # ---- M17: the parsing-state delta forwards the whole extension to extended_with()
+    ctx.rule('M17', 'ParsingStateDeltaExtendLatexContextDb hands its extension dictionary to extended_with() whole '
+                    '(`**self.extend_latex_context`, possibly through a local or a copy) or names every key extended_with() '
+                    'understands (macros, environments, specials and the three unknown_*_spec): an extension derived through '
+                    'the delta is the same database as the one extended_with() builds from the same dictionary', 1)
+    n17 = 0
+    for q_, f_ in sorted(m.functions.items()):
+        if not q_.startswith('ParsingStateDeltaExtendLatexContextDb.'):
+            continue
+        loc_ = {}
+        for st_ in iter_own(f_):
+            if isinstance(st_, ast.Assign) and len(st_.targets) == 1 and isinstance(st_.targets[0], ast.Name):
+                loc_.setdefault(st_.targets[0].id, []).append(st_.value)
+        for c_ in iter_own(f_):
+            if not (isinstance(c_, ast.Call) and call_name(c_) == 'extended_with'):
+                continue
+            n17 += 1
+            whole = False
+            for k_ in c_.keywords:
+                if k_.arg is None:
+                    v_ = k_.value
+                    if isinstance(v_, ast.Name) and len(loc_.get(v_.id, ())) == 1:
+                        v_ = loc_[v_.id][0]
+                    if isinstance(v_, ast.Call) and call_name(v_) in ('dict', 'copy') and (v_.args or call_recv(v_) is not None):
+                        v_ = v_.args[0] if v_.args else call_recv(v_)
+                    whole = whole or unparse(v_) == 'self.extend_latex_context'
+            named = {k_.arg for k_ in c_.keywords if k_.arg}
+            allk = named >= set(_UNK) | {'macros', 'environments', 'specials'}
+            missing = sorted((set(_UNK) | {'macros', 'environments', 'specials'}) - named)
+            ctx.decide('M17', whole or allk, m, c_, '%s forwards the whole extension' % q_,
+                       '%s calls extended_with() with selected keys only (%s): %s of the extension dictionary never reach it, so '
+                       'a database derived through the parsing-state delta keeps the parent\'s unknown-spec where '
+                       'extended_with() with the same dictionary installs the requested one'
+                       % (q_, ', '.join(sorted(named)), ', '.join(missing)), construct='%s: extended_with call' % q_)
+    if not n17:
+        ctx.unknown('M17', m, None, 'no extended_with() call in ParsingStateDeltaExtendLatexContextDb', construct='delta forwarding')
+
     ctx.rule('M11', 'extended_with(): when new definitions are merged into an existing automatically named category the '
                     'new definition of a name replaces the old one (abstract source-order interpretation of the merge)', 3)
     merge_precedence(ctx, 'M11', m, meths['extended_with'])
@@ -389,10 +493,26 @@ def run(ctx):
                 posv = cs.env.get(nm_)
                 if posv is None:
                     posv = ast.Name(id=nm_, ctx=ast.Load())     # an opaque call result: expanded through its definition
-        for opt, off in (('insert_after', 1), ('insert_before', 0)):
-            if (opt, True) not in atoms:
-                continue
-            if opt == 'insert_after' and ('insert_before', True) in atoms:
+        for opt, off, scen in (('insert_after', 1, {'insert_before': False, 'insert_after': True}),
+                               ('insert_before', 0, {'insert_before': True})):
+            # the path under the scenario "this option is given (and the one tested before it is not)": tests and values
+            # are simplified with the known truth of the option names (`a or b`, `x if a else y`), so a single branch that
+            # serves both options is read once per option
+            feas, atoms = True, set()
+            for t_, p_ in cs.conds:
+                t2_ = _simp_truth(_sx.expand(t_, cs.env), scen)
+                tv_ = _truth_of(t2_, scen)
+                if tv_ is not None:
+                    if tv_ != p_:
+                        feas = False
+                        break
+                    continue
+                for a_, ap_ in _sx._atoms(t2_, p_):
+                    av_ = _truth_of(a_, scen)
+                    if av_ is not None and av_ != ap_:
+                        feas = False
+                    atoms.add((unparse(a_), ap_))
+            if not feas:
                 continue
             lst, inlist = None, None
             for t_, p_ in atoms:
@@ -402,7 +522,7 @@ def run(ctx):
                     inlist = (mm.group(1) == 'in') == p_
             if inlist is None or posv is None:
                 continue
-            txt = unparse(_sx.expand(posv, cs.env)).replace(' ', '')
+            txt = unparse(_fold_int(_simp_truth(_sx.expand(posv, cs.env), scen))).replace(' ', '')
             idx = '%s.index(%s)' % (lst, opt)
             want = ([idx + '+1', '1+' + idx] if off else [idx]) if inlist else (['len(%s)' % lst] if off else ['0'])
             key_ = (opt, inlist, txt)
@@ -475,6 +595,7 @@ def run(ctx):
 
     # ---------------------------------------------------------------- M7
     _MODFUNCS[0] = dict((q, f_) for q, f_ in m.functions.items() if '.' not in q)
+    _MODFUNCS[0].update(('self.' + q, f_) for q, f_ in meths.items())
     for name, fn in sorted(list(meths.items()) + [(q, f_) for q, f_ in m.functions.items() if '.' not in q]):
         fk = _kind_of_ident(name)
         for unit, label in _kind_units(fn):
@@ -1437,6 +1558,72 @@ def _check_test_for_specials(ctx, m, fn):
                'best length does not start at 0', construct='test_for_specials: initial best length')
 
 
+
+def _truth_of(e, truth):
+    """truth value of `e` when the names in `truth` are known to be truthy / falsy (None: not known)"""
+    if isinstance(e, ast.Name) and e.id in truth:
+        return truth[e.id]
+    if isinstance(e, ast.Constant):
+        return bool(e.value)
+    if isinstance(e, ast.UnaryOp) and isinstance(e.op, ast.Not):
+        v = _truth_of(e.operand, truth)
+        return None if v is None else not v
+    if isinstance(e, ast.Compare) and len(e.ops) == 1 and isinstance(e.left, ast.Name) and e.left.id in truth and \
+            isinstance(e.comparators[0], ast.Constant) and e.comparators[0].value is None and truth[e.left.id]:
+        return isinstance(e.ops[0], (ast.IsNot, ast.NotEq))
+    return None
+
+
+def _simp_truth(e, truth):
+    """`e` with `a or b`, `a and b`, `x if a else y` and `not a` decided where the truth of the operand is known"""
+    class T(ast.NodeTransformer):
+        def visit_BoolOp(self, n):
+            self.generic_visit(n)
+            vals = []
+            for v in n.values:
+                tv = _truth_of(v, truth)
+                if isinstance(n.op, ast.Or):
+                    if tv is True:
+                        vals.append(v)
+                        break
+                    if tv is False and v is not n.values[-1]:
+                        continue
+                else:
+                    if tv is False:
+                        vals.append(v)
+                        break
+                    if tv is True and v is not n.values[-1]:
+                        continue
+                vals.append(v)
+            if len(vals) == 1:
+                return vals[0]
+            return ast.BoolOp(op=n.op, values=vals)
+
+        def visit_IfExp(self, n):
+            self.generic_visit(n)
+            tv = _truth_of(n.test, truth)
+            if tv is True:
+                return n.body
+            if tv is False:
+                return n.orelse
+            return n
+    return T().visit(symex.clone(e))
+
+
+def _fold_int(e):
+    """`x + 0` / `0 + x` / `x - 0` -> x (what is left of `i + (1 if a else 0)` once the option is known)"""
+    class T(ast.NodeTransformer):
+        def visit_BinOp(self, n):
+            self.generic_visit(n)
+            z = lambda q: isinstance(q, ast.Constant) and q.value == 0 and not isinstance(q.value, bool)
+            if isinstance(n.op, (ast.Add, ast.Sub)) and z(n.right):
+                return n.left
+            if isinstance(n.op, ast.Add) and z(n.left):
+                return n.right
+            return n
+    return T().visit(e)
+
+
 _MODFUNCS = [{}]
 
 
@@ -1467,11 +1654,13 @@ def _kind_units(fn):
             elt = ast.Tuple(elts=[e.key, e.value], ctx=ast.Load()) if isinstance(e, ast.DictComp) else e.elt
             yield elt, 'entry'
             return
-        if isinstance(e, ast.Call) and isinstance(e.func, ast.Name) and e.func.id in _MODFUNCS[0] and \
-                sum(1 for a in e.args if kinds_in(a)) >= 2:
-            # positional hand-over of several kind-named lists to a module-level helper: each
-            # argument is paired with the parameter it binds to
-            hp = [a.arg for a in _MODFUNCS[0][e.func.id].args.args]
+        if isinstance(e, ast.Call) and isinstance(e.func, (ast.Name, ast.Attribute)) and \
+                unparse(e.func) in _MODFUNCS[0] and sum(1 for a in e.args if kinds_in(a)) >= 2:
+            # positional hand-over of several kind-named lists to a module-level helper or a method
+            # of the class: each argument is paired with the parameter it binds to
+            hp = [a.arg for a in _MODFUNCS[0][unparse(e.func)].args.args]
+            if isinstance(e.func, ast.Attribute):
+                hp = hp[1:]
             for a, pn in zip(e.args, hp):
                 yield ast.Tuple(elts=[a, ast.Name(id=pn, ctx=ast.Load())], ctx=ast.Load()), 'entry'
             for k in e.keywords:
